@@ -45,15 +45,17 @@ func init() {
 		Assumptions: []string{
 			"Get on the simple form is the reference, as the property says; whether Get itself is right is C05",
 			"locations come from pathref (unit-tested reference evaluator) and are only used when Get agrees with one of pathref's readings",
-			"results that involve an object with several members or a descent are compared as multisets; order is only demanded of First (== Get[0]) and of Get across representations when every traversed container is an array",
+			"results are compared as multisets; order is only demanded of First / FirstNode (== Get[0]), GetNodes and of Get across representations, and only when it is defined: no descent, and no wildcard or filter applied to an object with two or more members",
 			"the representation builders and Canon (internal/gens/reprs.go) are the harness's own reflect code; reflect is trusted",
 			"a failing case is shrunk (proper prefix; rest of the path on each element the first fragment selects) before it is classified; a failure that a shorter case reproduces is reported there only",
 		},
 		Bound: func(tier string) string {
+			wide, thin := len(gens.Paths(true).Frags), len(gens.Paths(false).Frags)
+			d3, d4 := len(gens.PathData(3)), len(gens.PathData(4))
 			if tier == "thorough" {
-				return "wide alphabet (421 fragments) k<=2 on all trees <=4 nodes + 6 larger documents; thinned alphabet (124 fragments) k=3 on all trees <=3 nodes + 6 larger documents; " + reprBound
+				return fmt.Sprintf("wide alphabet (%d fragments) k<=2 on the %d documents of PathData(4) (all trees <=4 nodes + hand-made larger ones); thinned alphabet (%d fragments) k=3 on the %d documents of PathData(3) that are nested at least 2 deep (on flatter ones a third fragment has nothing to apply to; they are covered with k<=2); ", wide, d4, thin, len(gens.DeepDocs(gens.PathData(3), 2))) + reprBound
 			}
-			return "wide alphabet (421 fragments) k<=2 on all trees <=3 nodes + 6 larger documents; " + reprBound
+			return fmt.Sprintf("wide alphabet (%d fragments) k<=2 on the %d documents of PathData(3) (all trees <=3 nodes + hand-made larger ones); ", wide, d3) + reprBound
 		},
 	})
 }
@@ -356,15 +358,15 @@ func (o *only) wantsRepr(name string) bool { return o == nil || o.family == gens
 func (o *only) wantsEval(e string) bool    { return o == nil || o.eval == e }
 
 type examiner struct {
-	c     *core.Ctx
-	spec  gens.JPExpr
-	x     jp.Expr
-	t     *tree
-	only  *only
-	out   []finding
-	gs    []any // Get on the simple form
-	gsc   []any // canonical (it is simple already)
-	order  bool // order is defined: see ordered()
+	c      *core.Ctx
+	spec   gens.JPExpr
+	x      jp.Expr
+	t      *tree
+	only   *only
+	out    []finding
+	gs     []any // Get on the simple form
+	gsc    []any // canonical (it is simple already)
+	order  bool  // order is defined: see ordered()
 	orderK bool
 	locs   [][]string
 	locsK  bool // locs computed
@@ -923,7 +925,7 @@ func run(c *core.Ctx) {
 	if c.Quick() {
 		passes = []pass{{gens.Paths(true), 2, 1, gens.PathData(3)}}
 	} else {
-		passes = []pass{{gens.Paths(true), 2, 1, gens.PathData(4)}, {gens.Paths(false), 3, 3, gens.PathData(3)}}
+		passes = []pass{{gens.Paths(true), 2, 1, gens.PathData(4)}, {gens.Paths(false), 3, 3, gens.DeepDocs(gens.PathData(3), 2)}}
 	}
 	// ojg's evaluators allocate a 64-slot stack per call; the live heap is tiny,
 	// so collect rarely.
